@@ -45,6 +45,8 @@ def plan(tier, seed):
         specs.append({"kind": "random", "n": 2500 if tier == "quick" else 40000})
     for i in range(3 if tier == "quick" else 8):
         specs.append({"kind": "chains", "n": 1500 if tier == "quick" else 20000})
+    for i in range(2 if tier == "quick" else 6):
+        specs.append({"kind": "regex_reports", "n": 500 if tier == "quick" else 8000})
     return specs
 
 
@@ -63,6 +65,8 @@ def run_shard(spec, acc):
         c01.exhaustive(spec, acc)
     elif spec["kind"] == "random":
         c01.randomised(spec, acc)
+    elif spec["kind"] == "regex_reports":
+        regex_reports(spec, acc)
     else:
         chains(spec, acc)
 
@@ -94,7 +98,71 @@ def chains(spec, acc):
     acc.count("chain_cases", done)
 
 
-replay = c01.replay
+REGEX_POOL = [r"r\.[a-z_]+$", r"r\.a($|\.)", r"r\.(a|b|core|util)$", r"r\.[a-z_]+\.[a-z_]+$", r"r\.(x|y|z)(\..*)?$", r"r\.[abc].*", r".*\.util$", r"r\.(p|q|d|e)\b.*"]
+
+
+def regex_reports(spec, acc):
+    """For a rule given by regex the violating set is defined over the matched modules: its report must be
+    the report of the rule that names those modules (computed by the driver with re.match over THIS
+    architecture).  A small fixed pool of pattern strings is used over and over on different architectures
+    in one process."""
+    import re
+
+    from ..refmodel import msgparse
+
+    rnd = random.Random(spec["seed"])
+    done = 0
+    while done < spec["n"]:
+        mods = random_tree(rnd, 8, 13)
+        imps = c01.random_imports(rnd, mods, k_max=12)
+        ev = build(mods, imps)
+        for _ in range(6):
+            rx = rnd.choice(REGEX_POOL)
+            matches = sorted(m for m in mods if re.match(rx, m))
+            if not matches:
+                continue
+            names = [m for m in mods if m != "r"]
+            other = ("named", rnd.choice(names))
+            verb, d, exc = rnd.choice(c01.rrule.VERBS), rnd.choice(c01.rrule.DIRS), rnd.random() < 0.5
+            side = rnd.choice(["subject", "object"])
+            if side == "subject":
+                compact = {"verb": verb, "dir": d, "exc": exc, "subs": [("regex", rx)], "objs": [other], "anything": False}
+                expansion = dict(compact, subs=[("named", m) for m in matches])
+            else:
+                compact = {"verb": verb, "dir": d, "exc": exc, "subs": [other], "objs": [("regex", rx)], "anything": False}
+                expansion = dict(compact, objs=[("named", m) for m in matches])
+            case = {"kind": "regex_report", "mods": mods, "imps": imps, "compact": compact, "expansion": expansion}
+            HUB.case = case
+            o1, m1 = run(mk_rule(compact), ev)
+            o2, m2 = run(mk_rule(expansion), ev)
+            acc.evaluated(2)
+            done += 1
+            acc.count("regex_report_pairs")
+            if o1 != "fail" or o2 != "fail":
+                continue
+            try:
+                p1, p2 = msgparse.parse_module_message(m1), msgparse.parse_module_message(m2)
+            except msgparse.Unparseable:
+                continue
+            acc.count("regex_reports_compared")
+            acc.nontrivial({"m": mods, "i": imps, "c": compact})
+            if p1 != p2:
+                HUB.violation("C03", f"regex-report-vs-expansion:{side}:{c01.rrule.shape(compact)}", "report of a regex rule differs from the report of the rule naming the matched modules", {"case": case, "regex_report": m1, "expansion_report": m2})
+
+
+def replay(case, acc):
+    if case.get("kind") == "regex_report":
+        from ..refmodel import msgparse
+
+        ev = build(case["mods"], [tuple(i) for i in case["imps"]])
+        HUB.case = case
+        fix = lambda c: dict(c, subs=[tuple(x) for x in c["subs"]], objs=[tuple(x) for x in c["objs"]])  # noqa: E731
+        o1, m1 = run(mk_rule(fix(case["compact"])), ev)
+        o2, m2 = run(mk_rule(fix(case["expansion"])), ev)
+        if o1 == o2 == "fail" and msgparse.parse_module_message(m1) != msgparse.parse_module_message(m2):
+            HUB.violation("C03", "regex-report-vs-expansion:replayed", "report of a regex rule differs from the report of the rule naming the matched modules", {"regex_report": m1, "expansion_report": m2})
+        return
+    c01.replay(case, acc)
 
 
 def floors(acc, tier):
@@ -103,6 +171,8 @@ def floors(acc, tier):
     for b in BUCKETS:
         if h.get(b, 0) == 0:
             why.append(f"violation bucket {b} never fired")
+    if acc.counters["regex_reports_compared"] < 200:
+        why.append(f"only {acc.counters['regex_reports_compared']} regex reports compared")
     if acc.counters["c03_judged"] < 5000:
         why.append(f"only {acc.counters['c03_judged']} reports compared")
     acc.flags["exhaustive"] = bool(acc.flags.get("exhaustive_T1"))
